@@ -59,12 +59,10 @@ CFG = {
     },
     "thorough": {
         "kinds7": _c(7, ["NewSymbol", "NewFunction", "NewQuantity", "NewSystem", "Rotate"], {"r"}),
-        "kinds6": _c(6, ["NewSymbol", "NewIndexed", "NewFunction", "NewQuantity", "NewSystem", "Transform", "Rotate"],
-                     {"r"}),
         "create5": _c(5, CREATE, {"r"}, systypes=("cartesian", "cylindrical")),
         "clones7": _c(7, ["NewSymbol", "CloneAsSymbol", "CloneAsFunction"], {"r"}, subs=("0",)),
-        "clones6": _c(6, ["NewSymbol", "NewIndexed"] + CLONE, {"r"}, subs=("0",)),
-        "chains4": _c(4, ["NewSymbol"] + CLONE, {"none", "r"}, assums=("none", "positive"),
+        "clones5": _c(5, ["NewSymbol", "NewIndexed"] + CLONE, {"r"}, subs=("0",)),
+        "chains3": _c(3, ["NewSymbol"] + CLONE, {"none", "r"}, assums=("none", "positive"),
                       cassums=("inherit", "real"), subs=("none", "0")),
         "latex4": _c(4, ["NewSymbol", "NewIndexed"] + CLONE, {"r"}, latexes=("none", "R"), subs=("none", "0")),
         "wide2": _c(2, CREATE + CLONE, {"none", "r", "T"}, dims=("one", "length", "time"),
@@ -344,6 +342,8 @@ def _key(case) -> str:
 def enumerate_and_replay(run: Run, sc, cfgd: dict, pool, label: str, streams: dict) -> None:
     cfg = write_cfg(sc / f"sym_{label}.cfg", constants=cfgd, invariants=INVARIANTS, properties=PROPERTIES)
     res = run_tlc("Symbols", cfg, sc, workers=8, coverage=True, allow_violation=False, timeout=1500)
+    # TLC names coverage by operator: keep Init, the shared New, and the container action only if it is enabled
+    res.coverage = {k: v for k, v in res.coverage.items() if k in ("Init", "New") or k in cfgd["Actions"]}
     run.add_tlc(res, f"model check {label}: invariants {INVARIANTS} + properties {PROPERTIES}; all histories of "
                      f"{cfgd['MaxSteps']} actions over {len(cfgd['Actions'])} action kinds")
     cfg2 = write_cfg(sc / f"sym_{label}_emit.cfg", constants=cfgd, invariants=["Emit"])
@@ -420,6 +420,18 @@ def apalache_inductive(run: Run, sc) -> None:
         raise RuntimeError(f"Apalache: the inductive invariant of SymbolsInd.tla fails: {results}")
 
 
+def selftest(run: Run, sc) -> None:
+    """Binding of the trace specification: a stream in which SYM7 is handed out twice must be rejected at that
+    run, a clean stream (with skipped ids: distinctness, not 'last + 1', is required) must be accepted."""
+    probe = Run(PID, "selftest")
+    bad = {"tid": "planted-repeat", "runs": [{"b": "SYM", "lo": 1, "hi": 7}, {"b": "FUN", "lo": 1, "hi": 2}, {"b": "SYM", "lo": 7, "hi": 9}]}
+    good = {"tid": "skipping-ids", "runs": [{"b": "SYM", "lo": 1, "hi": 7}, {"b": "SYM", "lo": 20, "hi": 29}, {"b": "FUN", "lo": 5, "hi": 5}]}
+    v = idtrace.validate(probe, sc, [bad, good], "self-test")
+    if v.get("skipping-ids") is not None or v.get("planted-repeat") is None or v["planted-repeat"][0] != 3:
+        raise RuntimeError(f"self-test of SymbolsTrace.tla failed: {v}")
+    run.coverage["selftest_trace_spec"] = "planted repeated id rejected at its run; stream with skipped ids accepted"
+
+
 def main() -> int:
     if len(sys.argv) > 2 and sys.argv[1] == "--catalogue-trace":
         return catalogue_trace(sys.argv[2])
@@ -434,7 +446,10 @@ def main() -> int:
         _init()
         streams: dict = {}
         with make_pool() as pool:
+            only = [x for x in os.environ.get("VERIF_ONLY", "").split(",") if x]     # development aid
             for label, cfgd in CFG[tier].items():
+                if only and label not in only:
+                    continue
                 enumerate_and_replay(run, sc, cfgd, pool, label, streams)
         # code -> spec: the next_id streams of all worker processes and of the catalogue import
         traces = []
@@ -452,6 +467,7 @@ def main() -> int:
             run.coverage["catalogue_import_trace"] = {k: data[k] for k in ("modules", "events", "failed")}
         else:
             run.outside(f"catalogue import trace not recorded: {str(err)[-200:]}")
+        selftest(run, sc)
         idtrace.validate(run, sc, traces, f"next_id events of {len(traces)} processes (replay workers + catalogue import)")
         if tier == "thorough":
             apalache_inductive(run, sc)
